@@ -36,9 +36,9 @@ void harness(void) {
   if (pre == 1 || pre == 2) VASSERT(p_socket_bind(S, addr, ND_BOOL(), &err), "bind");
   if (pre == 2 && stream) VASSERT(p_socket_listen(S, &err), "listen");
   if (pre == 3) { VFD(conn_immediate, fd) = 1; VASSERT(p_socket_connect(S, addr, &err) && p_socket_is_connected(S), "connect"); }
-  p_socket_set_blocking(S, ND_BOOL());
+  p_socket_set_blocking(S, nd_pbool(ND_BOOL()));
   p_socket_set_timeout(S, ND_INT());
-  p_socket_set_keepalive(S, ND_BOOL());
+  p_socket_set_keepalive(S, nd_pbool(ND_BOOL()));
   pboolean ka = p_socket_get_keepalive(S), bl = p_socket_get_blocking(S);
   pint to = p_socket_get_timeout(S), backlog = p_socket_get_listen_backlog(S);
 
@@ -60,7 +60,7 @@ void harness(void) {
     err = NULL;
     long r;
     switch (op) {
-    case 0: r = p_socket_bind(S, addr, ND_BOOL(), &err) ? 0 : -1; break;
+    case 0: r = p_socket_bind(S, addr, nd_pbool(ND_BOOL()), &err) ? 0 : -1; break;
     case 1: r = p_socket_listen(S, &err) ? 0 : -1; break;
     case 2: r = p_socket_connect(S, addr, &err) ? 0 : -1; break;
     case 3: { PSocket *x = p_socket_accept(S, &err); VASSERT(x == NULL, "accept on a closed socket yields nothing"); r = -1; break; }
@@ -68,7 +68,7 @@ void harness(void) {
     case 5: r = p_socket_send_to(S, addr, (const pchar *) buf, (psize) ND_RANGE(1, VS_CAP), &err); break;
     case 6: r = p_socket_receive(S, (pchar *) buf, (psize) ND_RANGE(1, VS_CAP), &err); break;
     case 7: r = p_socket_receive_from(S, &from, (pchar *) buf, (psize) ND_RANGE(1, VS_CAP), &err); break;
-    case 8: { _Bool rd = ND_BOOL(), wr = ND_BOOL(); VASSUME(rd || wr); r = p_socket_shutdown(S, rd, wr, &err) ? 0 : -1; break; }
+    case 8: { _Bool rd = ND_BOOL(), wr = ND_BOOL(); VASSUME(rd || wr); r = p_socket_shutdown(S, nd_pbool(rd), nd_pbool(wr), &err) ? 0 : -1; break; }
     case 9: r = p_socket_set_buffer_size(S, ND_BOOL() ? P_SOCKET_DIRECTION_RCV : P_SOCKET_DIRECTION_SND, (psize) ND_RANGE(0, 65536), &err) ? 0 : -1; break;
     default: r = p_socket_io_condition_wait(S, ND_BOOL() ? P_SOCKET_IO_CONDITION_POLLIN : P_SOCKET_IO_CONDITION_POLLOUT, &err) ? 0 : -1; break;
     }
